@@ -22,12 +22,15 @@ import (
 // not change while the request ran.
 //
 // Faults. Two one-shot storage faults: the compare-and-swap that writes status "valid" into an
-// order, and any compare-and-swap on the challenge table.
+// order, and any compare-and-swap on the challenge table; and, for the duration of one request,
+// the failure of every update write of one chosen record (denyTbl/denyKey).
 type shiftDB struct {
 	nosql.DB
 	off            time.Duration
 	failOrderValid bool
 	failChallenge  bool
+	// while set: every compare-and-swap of this existing record fails
+	denyTbl, denyKey []byte
 }
 
 var (
@@ -71,6 +74,9 @@ func (s *shiftDB) Set(bucket, key, value []byte) error {
 }
 
 func (s *shiftDB) CmpAndSwap(bucket, key, oldValue, newValue []byte) ([]byte, bool, error) {
+	if s.denyTbl != nil && oldValue != nil && bytes.Equal(bucket, s.denyTbl) && bytes.Equal(key, s.denyKey) {
+		return nil, false, errInject
+	}
 	if s.failChallenge && bytes.Equal(bucket, chalTbl) && oldValue != nil {
 		s.failChallenge = false
 		return nil, false, errInject
